@@ -155,20 +155,24 @@ type Link struct {
 	Name    string
 	Latency time.Duration
 
-	mu      sync.Mutex
-	script  []Decision
-	ord     int // ordinal of the next packet offered while armed
-	total   int // all packets ever offered
-	armed   bool
-	until   time.Time // faults are applied only before this instant (zero: no limit)
-	q       []item
-	lastAt  time.Time
-	wake    chan struct{} // closed and replaced whenever the queue changes
-	silent  bool          // drop everything offered (peer unreachable)
-	hold    bool          // Send blocks until its ctx is done
-	gosched int           // call runtime.Gosched every n-th operation (0: never)
-	lastFaultAt time.Time // when the last non-deliver decision was applied
-	trace   *Trace
+	mu          sync.Mutex
+	script      []Decision
+	ord         int // ordinal of the next packet offered while armed
+	total       int // all packets ever offered
+	armed       bool
+	until       time.Time // faults are applied only before this instant (zero: no limit)
+	q           []item
+	lastAt      time.Time
+	wake        chan struct{} // closed and replaced whenever the queue changes
+	silent      bool          // drop everything offered (peer unreachable)
+	hold        bool          // Send blocks until its ctx is done
+	gosched     int           // call runtime.Gosched every n-th operation (0: never)
+	lastFaultAt time.Time     // when the last non-deliver decision was applied
+	// lastFaultDue is when the last packet held back by a delay decision
+	// becomes due. Packets queued behind it are due no later (FIFO), and a
+	// packet's ordinary latency does not count as a fault.
+	lastFaultDue time.Time
+	trace        *Trace
 
 	// Counters.
 	Dropped, Duplicated, Delayed, Offered int
@@ -238,11 +242,11 @@ func (l *Link) faultsActiveLocked() bool {
 }
 
 // LastFault returns the instant the last non-deliver decision was applied and
-// the instant the last queued packet is due.
+// the instant the last packet held back by a delay decision is due.
 func (l *Link) LastFault() (time.Time, time.Time) {
 	l.mu.Lock()
 	defer l.mu.Unlock()
-	return l.lastFaultAt, l.lastAt
+	return l.lastFaultAt, l.lastFaultDue
 }
 
 // Pending returns the number of queued packets.
@@ -331,6 +335,7 @@ func (l *Link) Send(ctx context.Context, b []byte) error {
 		l.Delayed++
 		l.lastFaultAt = time.Now()
 		l.enqueue(cp, time.Duration(d.DelayMs)*time.Millisecond)
+		l.lastFaultDue = l.lastAt
 	default:
 		dec = ""
 		l.enqueue(cp, 0)
